@@ -445,6 +445,9 @@ func (w *Worker) runPath(j Job) {
 				}
 				w.reportViolation(kind, "uncaught panic in harness: "+msg, nil)
 				completed = true
+				// the path ends in a reported violation: never a witness
+				// (its native run panics by construction)
+				w.poisoned = true
 			default:
 				panic(r)
 			}
